@@ -274,11 +274,17 @@ def script_walks(chk, binary, wd, seed, count):
         if last[:2] == [0x06, 0x1e] and last[2] == 1 and rnd.random() < 0.4:
             # the long form of an abort: the result code followed by a receipt number (BMP 87)
             last = [0x06, 0x1e, 0x04, last[3], 0x87] + rnd.choice([[0xff, 0xff], [0x00, 0x08], [0x99, 0x99], [0x47, 0x11]])
+            if rnd.random() < 0.4:
+                # ... and a TLV container that lists further receipt numbers (2.10.1)
+                lst = rnd.choice([[0x08, 0x02, 0x00, 0x17], [0x08, 0x02, 0x00, 0x17, 0x08, 0x02, 0x00, 0x18], [0x08, 0x02, 0x00, 0x17] * 3])
+                tl = [0x23, len(lst)] + lst
+                last = last + [0x06, len(tl)] + tl
+                last[2] = len(last) - 3
         frames.append(last)
         return {"script": frames}
     out = []
     for _ in range(count):
-        kind = rnd.choice(["commit", "commit", "cancel", "cancel", "read_card", "configure", "two"])
+        kind = rnd.choice(["commit", "commit", "cancel", "cancel", "read_card", "configure", "two", "card_then_pay"])
         cfg = {"max": rnd.choice([1, 2]), "pre": digits(rnd.choice([0, 2500, 10 ** 12 - 1])), "terminal_id": rnd.choice(["52523535", "11112222", "7"])}
         dang = rnd.choice([[], [], [4711]])
         if kind in ("commit", "cancel"):
@@ -289,6 +295,8 @@ def script_walks(chk, binary, wd, seed, count):
             cfg["max"] = 2
         elif kind == "read_card":
             calls = [{"op": "read_card"}, {"op": "read_card"}]
+        elif kind == "card_then_pay":
+            calls = [{"op": "read_card"}, {"op": "begin", "token": [97], "amount": []}, {"op": "commit", "token": [97], "amount": digits(rnd.choice([0, 1, 833]))}]
         else:
             calls = [{"op": "configure"}]
         scripts = {c: [script(c) for _ in range(4)] for c in cmds}
